@@ -393,6 +393,19 @@ def gen_history(rng, thorough=False):
                 steps.append(("pub", rng.randbytes(rng.choice([0, 7, 20, 33])).hex(), down))
             pubs += 1
             after_partial = False
+        elif r < 0.57 and pubs >= 2 and S >= 2:
+            # the newest version survives on few servers (the others replay the previous one); then the writer edits
+            # the file through an operation that surveys more than once into one servermap, and the availability of
+            # servers changes between the passes
+            few = rng.sample(range(S), rng.randrange(1, max(2, S // 3 + 1)))
+            if rng.random() < 0.7:
+                steps.append(("stale", pubs - 1, sorted(set(range(S)) - set(few))))
+            flaky = {}
+            for srv in (few if rng.random() < 0.8 else rng.sample(range(S), rng.randrange(1, S + 1))):
+                flaky[str(srv)] = [rng.choice(["ok-then-fail", "ok-then-fail", "fail-then-ok"]), rng.choice([1, 1, 2])]
+            steps.append((rng.choice(["modify", "modify-split", "update-split"]), rng.randbytes(rng.randrange(1, 9)).hex(),
+                          flaky))
+            pubs += 1
         elif r < 0.65:
             steps.append(("stale", rng.randrange(0, pubs), sorted(rng.sample(range(S), rng.randrange(1, S + 1)))))
         elif r < 0.75:
@@ -413,26 +426,67 @@ class Hooks:
         self.checks = []         # (state snapshot, decision string)
         self.final_maps = []     # (mode, ServerMap copy, state at _done)
         self.sidx = None
+        self.op_start = 0        # index into final_maps where the current harness step began
+        self.oplogs = []         # (ops logged on a ServerMap since its creation, canonical state) at each _done
 
     def install(self):
         from allmydata.mutable import publish as P, servermap as SM
         hooks = self
         self._saved = (P.Publish.publish, P.Publish.update, SM.ServermapUpdater._check_for_done)
         orig_publish, orig_update, orig_check = self._saved
+        # every public mutator of a ServerMap is logged on the instance, so that the whole life of a map (several
+        # survey passes, retrieve's bad-share marks, publish's add_new_share) can be replayed through the model
+        self._saved_sm = (SM.ServerMap.__init__, SM.ServerMap.add_new_share, SM.ServerMap.mark_bad_share,
+                          SM.ServerMap.mark_server_reachable, SM.ServerMap.mark_server_unreachable)
+        o_init, o_add, o_bad, o_reach, o_unreach = self._saved_sm
+
+        def sm_init(sm):
+            o_init(sm)
+            sm._vlog = []
+
+        def sm_add(sm, server, shnum, verinfo, timestamp):
+            if hasattr(sm, "_vlog"):
+                sm._vlog.append(("a", server, shnum, verinfo))
+            return o_add(sm, server, shnum, verinfo, timestamp)
+
+        def sm_bad(sm, server, shnum, checkstring):
+            if hasattr(sm, "_vlog"):
+                sm._vlog.append(("b", server, shnum, bytes(checkstring)))
+            return o_bad(sm, server, shnum, checkstring)
+
+        def sm_reach(sm, server):
+            if hasattr(sm, "_vlog"):
+                sm._vlog.append(("r", server))
+            return o_reach(sm, server)
+
+        def sm_unreach(sm, server):
+            if hasattr(sm, "_vlog"):
+                sm._vlog.append(("u", server))
+            return o_unreach(sm, server)
+        (SM.ServerMap.__init__, SM.ServerMap.add_new_share, SM.ServerMap.mark_bad_share,
+         SM.ServerMap.mark_server_reachable, SM.ServerMap.mark_server_unreachable) = (sm_init, sm_add, sm_bad, sm_reach, sm_unreach)
 
         def surveyed(p):
             sm = p._servermap
             return [v[0] for (v, _ts) in sm.get_known_shares().values()] if sm else []
 
+        def seen_all(p):
+            """every seqnum observed by any survey pass of the current operation (and what the map holds now)"""
+            seen = set(surveyed(p))
+            for (_mode, smap, _st) in hooks.final_maps[hooks.op_start:]:
+                seen |= set(v[0] for (v, _ts) in smap.get_known_shares().values())
+            return sorted(seen)
+
         def publish(p, newdata):
-            rec = {"surveyed": surveyed(p), "p": p, "content": newdata._filehandle.getvalue(), "kind": "publish"}
+            rec = {"surveyed": surveyed(p), "seen_all": seen_all(p), "p": p, "content": newdata._filehandle.getvalue(),
+                   "kind": "publish"}
             hooks.publishes.append(rec)
             d = orig_publish(p, newdata)
             rec["seqnum"] = p._new_seqnum
             return d
 
         def update(p, data, offset, blockhashes, version):
-            rec = {"surveyed": surveyed(p), "p": p, "kind": "update", "offset": offset, "oldver": (version[0], version[1]),
+            rec = {"surveyed": surveyed(p), "seen_all": seen_all(p), "p": p, "kind": "update", "offset": offset, "oldver": (version[0], version[1]),
                    "newdata": data._newdata._filehandle.getvalue()}
             hooks.publishes.append(rec)
             d = orig_update(p, data, offset, blockhashes, version)
@@ -454,6 +508,8 @@ class Hooks:
                 if u._running:
                     rec["decision"] = "done"
                     hooks.final_maps.append((u.mode, u._servermap.copy(), st))
+                    if hasattr(u._servermap, "_vlog") and len(hooks.oplogs) < 4000:
+                        hooks.oplogs.append(hooks.oplog_case(u._servermap))
                 return inst_done()
 
             def more(n):
@@ -473,6 +529,28 @@ class Hooks:
     def uninstall(self):
         from allmydata.mutable import publish as P, servermap as SM
         P.Publish.publish, P.Publish.update, SM.ServermapUpdater._check_for_done = self._saved
+        (SM.ServerMap.__init__, SM.ServerMap.add_new_share, SM.ServerMap.mark_bad_share,
+         SM.ServerMap.mark_server_reachable, SM.ServerMap.mark_server_unreachable) = self._saved_sm
+
+    def oplog_case(self, sm):
+        """(driver line replaying every mutator call made on this map so far, canonical state of the real map)"""
+        sidx = self.sidx
+        vers = []
+        for op in sm._vlog:
+            if op[0] == "a" and op[3] not in vers:
+                vers.append(op[3])
+        for (v, _ts) in sm.get_known_shares().values():
+            if v not in vers:
+                vers.append(v)        # an entry that no logged call put there
+        toks = []
+        for op in sm._vlog:
+            if op[0] == "a":
+                toks.append("a:%d:%d:%d" % (sidx(op[1]), op[2], vers.index(op[3])))
+            elif op[0] == "b":
+                toks.append("b:%d:%d:%s" % (sidx(op[1]), op[2], mc.hx(op[3])))
+            else:
+                toks.append("%s:%d" % (op[0], sidx(op[1])))
+        return ("smap %s %s" % (mc.vtable(vers), " ".join(toks)), mc.canon_smap(sm, vers, sidx))
 
     def snapshot(self, u):
         sidx = self.sidx
@@ -534,9 +612,20 @@ def run_history(ctx, h, acc):
                             if any(s >= seq for s in surveyed):
                                 ctx.violation("publish chose seqnum %d, its servermap held seqnums %r" % (seq, sorted(set(surveyed))),
                                               case, "seqnum-not-above-survey-grid")
+                            elif any(s >= seq for s in rec.get("seen_all", ())):
+                                ctx.violation("%s chose seqnum %d although the survey passes of this operation observed "
+                                              "seqnums %r (the map it published against held %r)" % (
+                                                  rec["kind"], seq, rec["seen_all"], sorted(set(surveyed))), case,
+                                              "published-seqnum-not-above-seen")
+                            if len(rec.get("seen_all", ())) and set(rec["seen_all"]) - set(surveyed):
+                                ctx.count("grid-publish-after-passes-that-saw-more-than-the-final-map")
                         rh = getattr(p, "root_hash", None)
                         if rh is None or seq is None:
                             continue
+                        clash = [key for key in registry if key[0] == seq and key[1] != rh]
+                        if clash and seq in rec.get("seen_all", ()):
+                            ctx.violation("two different versions carry seqnum %d, and the writer of the second had seen "
+                                          "that seqnum" % seq, case, "two-versions-one-seqnum-seen")
                         if rec["kind"] == "publish":
                             registry[(seq, rh)] = rec["content"]
                         else:
@@ -552,6 +641,7 @@ def run_history(ctx, h, acc):
                 for idx, step in enumerate(h["steps"]):
                     kind = step[0]
                     ctx.count("grid-step:" + kind)
+                    hooks.op_start = len(hooks.final_maps)
                     if kind == "create":
                         node = rt.wait(writer.create_mutable_file(
                             MutableData(bytes.fromhex(step[1])), version=MDMF_VERSION if h["fmt"] == "m" else SDMF_VERSION,
@@ -602,6 +692,52 @@ def run_history(ctx, h, acc):
                                 else:
                                     ctx.count("grid-writer-did-not-observe-own-previous-version")
                             my_seqs.append(seq)
+                    elif kind in ("modify", "modify-split", "update-split"):
+                        snaps.append(mc.snapshot_files(g, si))
+                        token = b"+" + bytes.fromhex(step[1])
+                        flaky = {int(a): b for a, b in step[2].items()}
+                        npub = len(hooks.publishes)
+
+                        def install_counting_faults():
+                            for srv, (mode, nreads) in flaky.items():
+                                if srv not in g.wrappers:
+                                    continue
+
+                                def fault(methname, args, kwargs, _mode=mode, _n=nreads, _st={"reads": 0}):
+                                    if methname == "slot_readv":
+                                        _st["reads"] += 1
+                                    first = _st["reads"] <= _n
+                                    if _mode == "ok-then-fail":
+                                        return None if first else "error"
+                                    return "error" if first else None
+                                g.wrappers[srv].fault = fault
+                        try:
+                            if kind == "modify":
+                                install_counting_faults()
+                                rt.wait(node.modify(lambda old, smap, first, _t=token: old + _t))
+                            else:
+                                # pass 1 with one availability pattern, the rest of the operation with the other
+                                set_down([srv for srv, (mode, _n) in flaky.items() if mode == "fail-then-ok"])
+                                mv = rt.wait(node.get_best_mutable_version())
+                                set_down([srv for srv, (mode, _n) in flaky.items() if mode == "ok-then-fail"])
+                                if kind == "modify-split":
+                                    rt.wait(mv.modify(lambda old, smap, first, _t=token: old + _t))
+                                else:
+                                    rt.wait(mv.update(MutableData(token), mv.get_size()))
+                            ctx.count("grid-%s-ok" % kind)
+                            ok = True
+                        except grid.Stuck:
+                            raise
+                        except Exception as e:
+                            ctx.count("grid-%s-error:%s" % (kind, mc.exc_name(e)))
+                            ok = False
+                        set_down([])
+                        for i in g.wrappers:
+                            g.wrappers[i].fault = None
+                        settle_publishes()
+                        new = [r for r in hooks.publishes[npub:] if r.get("seqnum") is not None]
+                        if ok and new:
+                            my_seqs.append(new[-1]["seqnum"])
                     elif kind == "stale":
                         if snaps:
                             snap = snaps[min(step[1], len(snaps) - 1)]
@@ -679,6 +815,10 @@ def run_history(ctx, h, acc):
                     monitor_keeps_querying(ctx, st, st["known"], out, case, "grid")
                     ctx.case(("gupd", acc["upd_lines"][-1]) if (st["running"] and not st["must"]) else None)
                     ctx.count("grid-check-%s-%s" % (MODES[st["mode"]], out.split(";")[0].split(":")[0]))
+                for (line, canon) in hooks.oplogs:
+                    acc["log_lines"].append(line)
+                    acc["log_impl"].append(canon)
+                    acc["log_cases"].append({"kind": "grid-smap-oplog", "h": h, "line": line[:2000]})
                 for (mode, smap, st) in hooks.final_maps:
                     vers = mc.versions_of(smap)
                     acc["sm_lines"].append("smap %s %s" % (mc.vtable(vers), " ".join(mc.smap_ops(smap, vers, hooks.sidx))))
@@ -718,7 +858,8 @@ def run(ctx):
         else:
             h = c["h"]
             h["steps"] = [tuple(s) for s in h["steps"]]
-            acc = {k: [] for k in ("upd_lines", "upd_impl", "upd_cases", "sm_lines", "sm_impl", "sm_cases")}
+            acc = {k: [] for k in ("upd_lines", "upd_impl", "upd_cases", "sm_lines", "sm_impl", "sm_cases", "log_lines",
+                                    "log_impl", "log_cases")}
             run_history(ctx, h, acc)
             finish_grid(ctx, acc)
         return
@@ -728,13 +869,19 @@ def run(ctx):
         cases.append((vers, gen_map_ops(ctx.rng, vers)))
     run_smaps(ctx, cases)
     run_upds(ctx, [gen_upd(ctx.rng) for _ in range(ctx.budget(600, 12000))])
-    acc = {k: [] for k in ("upd_lines", "upd_impl", "upd_cases", "sm_lines", "sm_impl", "sm_cases")}
-    for _ in range(ctx.budget(45, 700)):
+    acc = {k: [] for k in ("upd_lines", "upd_impl", "upd_cases", "sm_lines", "sm_impl", "sm_cases", "log_lines",
+                                    "log_impl", "log_cases")}
+    for _ in range(ctx.budget(80, 900)):
         run_history(ctx, gen_history(ctx.rng), acc)
     finish_grid(ctx, acc)
 
 
 def finish_grid(ctx, acc):
+    logm = ctx.model(acc["log_lines"])
+    if logm is not None:
+        ctx.compare("ServerMaps of grid histories after each survey pass vs the model replaying every mutator call made on "
+                    "that map since its creation (add_new_share / mark_bad_share / mark_server_(un)reachable): nothing else "
+                    "may change a servermap", acc["log_cases"], acc["log_impl"], logm)
     model = ctx.model(acc["upd_lines"] + acc["sm_lines"])
     if model is not None:
         n = len(acc["upd_lines"])
